@@ -207,3 +207,10 @@ impl ArrayRangeSet {
         self.iter().next_back().map(|x| x.end - 1)
     }
 }
+
+#[cfg(feature = "__verif-hooks")]
+#[allow(missing_docs, unreachable_pub, dead_code, unused_imports, unused_qualifications)]
+pub mod verif {
+    use super::*;
+    include!(concat!(env!("QUINN_VERIF_HOOKS"), "/proto/range_set/array_range_set.rs"));
+}
